@@ -180,8 +180,8 @@ def judge (doc : Value) (profileFlag envFlag : Option String) (flags : Options) 
                     | [] => field impl s.name == some "-"
                     | _ => rendered.any fun r => r.isSome && r == field impl s.name
                   if okv then ("ok", invalid)
+                  else if spellingsUsed allLayers s.spellings > 1 then (s!"viol:alias-shadow:{s.name}", invalid)
                   else if invalid then (s!"viol:precedence:{s.name} invalid value accepted", true)
-                  else if spellingsUsed allLayers s.spellings > 1 then (s!"viol:alias-shadow:{s.name}", false)
                   else (s!"viol:precedence:{s.name}", false)
           if verdicts.any (·.1 == "skip") then "ok"
           else if implErr then
